@@ -66,6 +66,20 @@ func topLevel(body []ast.Stmt) []string {
 	return out
 }
 
+// findFuncOpt is findFunc for a declaration whose absence is itself a reading (a method a repair adds)
+func findFuncOpt(rel, recv, name string) (fd *ast.FuncDecl) {
+	defer func() {
+		if r := recover(); r != nil {
+			if _, ok := r.(fatal); ok {
+				fd = nil
+				return
+			}
+			panic(r)
+		}
+	}()
+	return findFunc(rel, recv, name)
+}
+
 func indexOf(l []string, s string) int {
 	for i, x := range l {
 		if x == s {
@@ -122,6 +136,8 @@ func init() {
 			die("ClientDnsConnection.Close at %s: `return dc.Communicator.Close()` not found at the top level", pos(cc))
 		}
 		f.defBool("client_close_closes_in_queue", iq >= 0 && iq < ic, "dc.in.Close() before the communicator is closed: "+pos(cc))
+		io := indexOf(tl, "dc.out.Close()")
+		f.defBool("client_close_closes_out_queue", io >= 0 && io < ic, "dc.out.Close() before the communicator is closed: "+pos(cc))
 		// the network part: SendAndReceive(nil), then Query(SetOptionsRequest{Closed})
 		var guard *ast.IfStmt
 		for _, st := range cc.Body.List {
@@ -146,6 +162,7 @@ func init() {
 			die("closeConnection at %s: the retirement statements (connections[..] = nil, oldConnections[..] = u, u.closed = true) were not found", pos(clc))
 		}
 		f.defBool("close_connection_closes_in_queue", iqc >= 0, "u.in.Close() at the top level of closeConnection: "+pos(clc))
+		f.defBool("close_connection_closes_out_queue", indexOf(tl, "u.out.Close()") > icl, "u.out.Close() at the top level of closeConnection, after u.closed = true: "+pos(clc))
 		uc := findFunc(dnsDir, "userConnection", "Close")
 		str("user_close_is", exprText(singleReturn(uc)), pos(uc))
 		nu := findFunc(dnsDir, "ServerDnsListener", "newUser")
@@ -163,7 +180,7 @@ func init() {
 
 		// -- the expiry sweep: the first loop (over srv.connections) closes the in-queue of the user it retires
 		nl := findFunc(dnsDir, "", "NewServerDnsListener")
-		sweep, seen := false, false
+		sweep, sweepOut, seen := false, false, false
 		ast.Inspect(nl, func(n ast.Node) bool {
 			rs, ok := n.(*ast.RangeStmt)
 			if !ok || exprText(rs.X) != "srv.connections" {
@@ -176,6 +193,9 @@ func init() {
 						if exprText(st) == "u.in.Close()" {
 							sweep = true
 						}
+						if exprText(st) == "u.out.Close()" {
+							sweepOut = true
+						}
 					}
 				}
 				return true
@@ -186,6 +206,7 @@ func init() {
 			die("NewServerDnsListener at %s: the sweep's loop over srv.connections was not found", pos(nl))
 		}
 		f.defBool("sweep_closes_in_queue", sweep, "u.in.Close() where the sweep retires a stale user: "+pos(nl))
+		f.defBool("sweep_closes_out_queue", sweepOut, "u.out.Close() where the sweep retires a stale user: "+pos(nl))
 
 		// -- setOptionsRequest: the Closed branch
 		so := findFunc(dnsDir, "ServerDnsListener", "setOptionsRequest")
@@ -416,6 +437,87 @@ func init() {
 		str("in_queue_wait_tests", strings.Join(tests, ";"), pos(wq))
 		qr := findFunc(dnsUtilDir, "InQueue", "Read")
 		str("in_queue_read_steps", strings.Join(topLevel(qr.Body.List), ";"), pos(qr))
+
+		// -- OutQueue: Close (absent before the repair: an empty text), the tests of waitEmptyQueue before it parks, what it returns after
+		// a wake-up, closedWithData, Write
+		oqc := findFuncOpt(dnsUtilDir, "OutQueue", "Close")
+		ocSteps := ""
+		if oqc != nil {
+			ocSteps = strings.Join(topLevel(oqc.Body.List), ";")
+			str("out_queue_close_steps", ocSteps, pos(oqc))
+		} else {
+			str("out_queue_close_steps", "", "OutQueue has no Close method in "+dnsUtilDir)
+		}
+		owq := findFunc(dnsUtilDir, "OutQueue", "waitEmptyQueue")
+		var otests []string
+		for _, st := range owq.Body.List {
+			if ifs, ok := st.(*ast.IfStmt); ok && ifs.Init == nil {
+				c := exprText(ifs.Cond)
+				if c == "!q.queueHasData" || c == "q.closed" {
+					r := ""
+					if rs, ok := ifs.Body.List[len(ifs.Body.List)-1].(*ast.ReturnStmt); ok && len(rs.Results) == 1 {
+						r = exprText(rs.Results[0])
+					}
+					otests = append(otests, c+" -> "+r)
+				}
+			}
+		}
+		str("out_queue_wait_tests", strings.Join(otests, ";"), pos(owq))
+		// the return statement of every `case <-wait:` of the two selects
+		var afterWake []string
+		ast.Inspect(owq, func(n ast.Node) bool {
+			cc, ok := n.(*ast.CommClause)
+			if !ok || cc.Comm == nil || exprText(cc.Comm) != "<-wait" {
+				return true
+			}
+			ret := "(falls through)"
+			for _, st := range cc.Body {
+				if rs, ok := st.(*ast.ReturnStmt); ok && len(rs.Results) == 1 {
+					ret = exprText(rs.Results[0])
+				}
+			}
+			afterWake = append(afterWake, ret)
+			return true
+		})
+		// (the select without a deadline has an empty case body followed by a return statement)
+		var tailRets []string
+		ast.Inspect(owq, func(n ast.Node) bool {
+			ifs, ok := n.(*ast.IfStmt)
+			if ok && exprText(ifs.Cond) == "q.writeDeadline.IsZero()" {
+				if rs, ok := ifs.Body.List[len(ifs.Body.List)-1].(*ast.ReturnStmt); ok && len(rs.Results) == 1 {
+					tailRets = append(tailRets, exprText(rs.Results[0]))
+				}
+			}
+			return true
+		})
+		str("out_queue_wait_after_wake", strings.Join(append(tailRets, afterWake...), ";"), pos(owq))
+		cwd := findFuncOpt(dnsUtilDir, "OutQueue", "closedWithData")
+		cwdText := ""
+		if cwd != nil {
+			for _, st := range cwd.Body.List {
+				if ifs, ok := st.(*ast.IfStmt); ok && len(ifs.Body.List) == 1 {
+					if rs, ok := ifs.Body.List[0].(*ast.ReturnStmt); ok && len(rs.Results) == 1 {
+						cwdText = exprText(ifs.Cond) + " -> " + exprText(rs.Results[0])
+					}
+				}
+			}
+			str("out_queue_closed_with_data", cwdText, pos(cwd))
+		} else {
+			str("out_queue_closed_with_data", "", "OutQueue has no closedWithData method in "+dnsUtilDir)
+		}
+		oqw := findFunc(dnsUtilDir, "OutQueue", "Write")
+		str("out_queue_write_steps", strings.Join(topLevel(oqw.Body.List), ";"), pos(oqw))
+		asModelled := ocSteps == "q.queueMutex.Lock();q.closed = true;for;q.queueNotifiers = q.queueNotifiers[0:0];q.queueMutex.Unlock()" &&
+			strings.Join(otests, ";") == "!q.queueHasData -> nil;q.closed -> os.ErrClosed" &&
+			strings.Join(append(tailRets, afterWake...), ";") == "q.closedWithData();(falls through);q.closedWithData()" &&
+			cwdText == "q.closed && q.queueHasData -> os.ErrClosed"
+		f.defBool("out_queue_close_as_modelled", asModelled, "OutQueue.Close, the tests of waitEmptyQueue and closedWithData have the texts the model was written from")
+		usw := findFunc(dnsDir, "userConnection", "Write")
+		str("server_write_otherwise", exprText(usw.Body.List[len(usw.Body.List)-1]), pos(usw))
+		clw := findFunc(dnsDir, "ClientDnsConnection", "Write")
+		str("client_write_otherwise", exprText(clw.Body.List[len(clw.Body.List)-1]), pos(clw))
+		oua := findFunc(dnsUtilDir, "OutQueue", "UpdateAcked")
+		str("out_queue_update_acked_tail", exprText(oua.Body.List[len(oua.Body.List)-1]), pos(oua))
 		return f
 	})
 }
